@@ -62,6 +62,14 @@ theorem worse_iff (n old kt thr : ℝ) (hkt : 0 < kt) (h : n < old) :
   have h2 : ¬ old < n := not_lt.mpr h.le
   simp [acceptScore, testAcceptance, surface_worse n old kt hkt h.le, h2]
 
+/-- a score which is not a number — over any carrier: a value that is not equal to itself, which at
+IEEE doubles is exactly NaN — is never accepted, at any temperature (the `fix:` for the NaN-score
+defect; ℝ has no such value, so this clause is stated carrier-generically) -/
+theorem nan_never_accepted {α : Type} [Add α] [Sub α] [Mul α] [Div α] [Neg α] [LT α] [DecidableLT α]
+    [LE α] [DecidableLE α] [BEq α] [NatCast α] [IntCast α] [Transc α] [FModLike α] [FMin α]
+    (n old kt thr : α) (h : (n == n) = false) : acceptScore (some n) old kt thr = none := by
+  simp [acceptScore, h]
+
 /-- whatever is accepted is the proposal's own score -/
 theorem accepted_value (new : Option ℝ) (old kt thr s : ℝ)
     (h : acceptScore new old kt thr = some s) : new = some s := by
@@ -70,10 +78,12 @@ theorem accepted_value (new : Option ℝ) (old kt thr s : ℝ)
   | some n =>
     simp only [acceptScore] at h
     split at h
-    · simpa using h
+    · simp at h
     · split at h
       · simpa using h
-      · simp at h
+      · split at h
+        · simpa using h
+        · simp at h
 
 /-- **probability clause**: the set of thresholds in `[0,1)` for which a move worse by `d ≥ 0` is
 accepted at temperature `kT > 0` has Lebesgue measure `exp(-d/kT)`; given that the threshold is
@@ -135,6 +145,7 @@ example : acceptScore (some (1:ℝ)) 2 1 (1/10) = some 1 := by
     have h4 := Real.exp_one_lt_three
     have h5 : (0:ℝ) < Real.exp 1 := Real.exp_pos _
     exact inv_strictAnti₀ h5 (by linarith)
-  simp only [acceptScore, testAcceptance, hs, h2, if_false, this, decide_true, if_true]
+  simp only [acceptScore, beq_self_eq_true, Bool.not_true, Bool.false_eq_true, testAcceptance, hs,
+    h2, if_false, this, decide_true, if_true]
 
 end PV.Proofs.C07
